@@ -101,3 +101,294 @@ func init() {
 		}
 	})
 }
+
+// C04 consumer: structural facts of NodeProcessor.SendWrite / run / close and of
+// Service.purgeInactiveProcessors / RemoveNode that C04/Drain.v is written against.
+// SendWrite's branch actions are emitted as small codes that PARAMETERISE the model
+// (0 nothing, 1 queue.Advance, 2 queue.Truncate, 3 queue.advanceSegment, 9 anything else), so a
+// change of a branch changes the model and its theorems stop checking (C04/ProofsConsumer.v
+// proves [c04_shape = good_shape] by reflexivity); the other facts are booleans stated as
+// `= true` theorems.
+func init() {
+	register("C04b services/hh/node_processor.go + service.go (consumer structure)", func(b *strings.Builder) {
+		p := loadPkg(filepath.Join(*repo, "services", "hh"))
+		calls := func(n ast.Node) []string {
+			var out []string
+			if n == nil {
+				return out
+			}
+			ast.Inspect(n, func(x ast.Node) bool {
+				if c, ok := x.(*ast.CallExpr); ok {
+					out = append(out, c17ExprString(c.Fun))
+				}
+				return true
+			})
+			return out
+		}
+		has := func(l []string, s string) bool {
+			for _, x := range l {
+				if x == s {
+					return true
+				}
+			}
+			return false
+		}
+		// action code of a block: which queue-moving calls it contains
+		action := func(n ast.Node) int {
+			l := calls(n)
+			code, cnt := 0, 0
+			for name, c := range map[string]int{"n.queue.Advance": 1, "n.queue.Truncate": 2, "n.queue.advanceSegment": 3} {
+				if has(l, name) {
+					code = c
+					cnt++
+				}
+			}
+			for _, x := range l {
+				if strings.HasPrefix(x, "n.queue.") && x != "n.queue.Advance" && x != "n.queue.Truncate" && x != "n.queue.advanceSegment" {
+					return 9
+				}
+			}
+			if cnt > 1 {
+				return 9
+			}
+			return code
+		}
+		endsWithReturn := func(bs *ast.BlockStmt) bool {
+			if bs == nil || len(bs.List) == 0 {
+				return false
+			}
+			_, ok := bs.List[len(bs.List)-1].(*ast.ReturnStmt)
+			return ok
+		}
+		sw := p.funcDecl("SendWrite", "NodeProcessor")
+		st := sw.Body.List
+		idxCur, idxUm, idxWrite, idxAdv, idxInactive := -1, -1, -1, -1, -1
+		onErr, onEOF, onUm := 9, 9, 9
+		retryReturns, errBranchReturns, umBranchReturns, inactiveEOF := false, false, false, false
+		for i, s := range st {
+			switch x := s.(type) {
+			case *ast.AssignStmt:
+				l := calls(x)
+				if has(l, "n.queue.Current") && idxCur < 0 {
+					idxCur = i
+				}
+				if has(l, "unmarshalWrite") && idxUm < 0 {
+					idxUm = i
+				}
+			case *ast.IfStmt:
+				cond := c17ExprString(x.Cond)
+				switch {
+				case cond == "!active":
+					idxInactive = i
+					if len(x.Body.List) == 1 {
+						if r, ok := x.Body.List[0].(*ast.ReturnStmt); ok && len(r.Results) == 2 && c17ExprString(r.Results[1]) == "io.EOF" {
+							inactiveEOF = true
+						}
+					}
+				case idxCur >= 0 && i == idxCur+1 && cond == "err!=nil":
+					errBranchReturns = endsWithReturn(x.Body)
+					// inner: if err != io.EOF { Truncate } else { advanceSegment }
+					for _, y := range x.Body.List {
+						if in, ok := y.(*ast.IfStmt); ok && c17ExprString(in.Cond) == "err!=io.EOF" {
+							onErr = action(in.Body)
+							if in.Else != nil {
+								onEOF = action(in.Else)
+							} else {
+								onEOF = 0
+							}
+						}
+					}
+				case idxUm >= 0 && i == idxUm+1 && cond == "err!=nil":
+					umBranchReturns = endsWithReturn(x.Body)
+					onUm = action(x.Body)
+				case x.Init != nil && has(calls(x.Init), "n.writer.WriteShardBinary"):
+					idxWrite = i
+					retryReturns = has(calls(x.Cond), "IsRetryable") && strings.HasPrefix(cond, "err!=nil&&") &&
+						endsWithReturn(x.Body) && action(x.Body) == 0
+				default:
+					if idxUm >= 0 && i > idxUm+1 && idxAdv < 0 && action(x) != 0 {
+						if action(x) == 1 {
+							idxAdv = i
+						} else {
+							idxAdv = -2 // something else than Advance moves the queue after a send
+						}
+					}
+				}
+			default:
+				if idxUm >= 0 && i > idxUm+1 && idxAdv < 0 && action(s) != 0 {
+					if action(s) == 1 {
+						idxAdv = i
+					} else {
+						idxAdv = -2
+					}
+				}
+			}
+		}
+		if idxCur < 0 || idxUm < 0 || idxWrite < 0 {
+			die("NodeProcessor.SendWrite: Current / unmarshalWrite / WriteShardBinary statements not found at top level")
+		}
+		fmt.Fprintf(b, "Definition c04_sw_on_current_err : N := %d%%N.\n", onErr)
+		fmt.Fprintf(b, "Definition c04_sw_on_eof : N := %d%%N.\n", onEOF)
+		fmt.Fprintf(b, "Definition c04_sw_on_unmarshal_err : N := %d%%N.\n", onUm)
+		writeBool(b, "c04_sw_retry_returns", retryReturns)
+		// the acknowledged/rejected path: WriteShardBinary, then (only then) exactly one Advance
+		writeBool(b, "c04_sw_write_then_advance", idxAdv > idxWrite && idxWrite > idxUm)
+		writeBool(b, "c04_sw_advance_before_write", idxAdv >= 0 && idxAdv < idxWrite)
+		writeBool(b, "c04_sw_branches_return", errBranchReturns && umBranchReturns)
+		writeBool(b, "c04_sw_inactive_is_eof", inactiveEOF && idxInactive >= 0 && idxInactive < idxCur)
+
+		// run: the retry tick calls SendWrite in a loop and leaves it on the first error
+		run := p.funcDecl("run", "NodeProcessor")
+		runOK := false
+		purgeTick := false
+		ast.Inspect(run, func(n ast.Node) bool {
+			switch x := n.(type) {
+			case *ast.ForStmt:
+				if x.Cond != nil || len(x.Body.List) < 2 {
+					return true
+				}
+				as, ok := x.Body.List[0].(*ast.AssignStmt)
+				if !ok || !has(calls(as), "n.SendWrite") {
+					return true
+				}
+				is, ok := x.Body.List[1].(*ast.IfStmt)
+				if ok && c17ExprString(is.Cond) == "err!=nil" && len(is.Body.List) > 0 {
+					if br, ok := is.Body.List[len(is.Body.List)-1].(*ast.BranchStmt); ok && br.Tok == token.BREAK {
+						runOK = true
+					}
+				}
+			case *ast.CallExpr:
+				if c17ExprString(x.Fun) == "n.queue.PurgeOlderThan" && len(x.Args) == 1 &&
+					c17ExprString(x.Args[0]) == "time.Now().Add(-n.MaxAge)" {
+					purgeTick = true
+				}
+			}
+			return true
+		})
+		writeBool(b, "c04_run_loops_until_error", runOK)
+		writeBool(b, "c04_run_purges_by_max_age", purgeTick)
+
+		// close(onlyIfEmpty): the emptiness check and close(n.done) are in ONE function literal
+		// that holds n.mu.Lock, the check first
+		cl := p.funcDecl("close", "NodeProcessor")
+		closeOK := false
+		ast.Inspect(cl, func(n ast.Node) bool {
+			fl, ok := n.(*ast.FuncLit)
+			if !ok {
+				return true
+			}
+			lock, chk, cls := -1, -1, -1
+			for i, s := range fl.Body.List {
+				l := calls(s)
+				if has(l, "n.mu.Lock") && lock < 0 {
+					lock = i
+				}
+				if is, ok := s.(*ast.IfStmt); ok && c17ExprString(is.Cond) == "onlyIfEmpty&&!n.queue.Empty()" && endsWithReturn(is.Body) {
+					chk = i
+				}
+				if es, ok := s.(*ast.ExprStmt); ok && c17ExprString(es.X) == "close(n.done)" {
+					cls = i
+				}
+			}
+			if lock >= 0 && lock < chk && chk < cls {
+				closeOK = true
+			}
+			return true
+		})
+		writeBool(b, "c04_close_if_empty_one_section", closeOK)
+
+		// purgeInactiveProcessors: a queue found empty is closed with CloseIfEmpty (and skipped
+		// when that reports false); a non-empty one only after `active -> continue` and
+		// `!lm.Before(now-MaxAge) -> continue`
+		pp := p.funcDecl("purgeInactiveProcessors", "Service")
+		var emptyIf *ast.IfStmt
+		var guardIf *ast.IfStmt
+		ast.Inspect(pp, func(n ast.Node) bool {
+			if is, ok := n.(*ast.IfStmt); ok {
+				switch c17ExprString(is.Cond) {
+				case "empty":
+					emptyIf = is
+				case "!empty":
+					guardIf = is
+				}
+			}
+			return true
+		})
+		passOK := false
+		if emptyIf != nil && guardIf != nil && emptyIf.Else != nil {
+			l := calls(emptyIf.Body)
+			closedSkips := false
+			for _, s := range emptyIf.Body.List {
+				if is, ok := s.(*ast.IfStmt); ok && c17ExprString(is.Cond) == "!closed" && len(is.Body.List) == 1 {
+					if br, ok := is.Body.List[0].(*ast.BranchStmt); ok && br.Tok == token.CONTINUE {
+						closedSkips = true
+					}
+				}
+			}
+			activeSkips, youngSkips := false, false
+			for _, s := range guardIf.Body.List {
+				is, ok := s.(*ast.IfStmt)
+				if !ok || len(is.Body.List) == 0 {
+					continue
+				}
+				br, ok := is.Body.List[len(is.Body.List)-1].(*ast.BranchStmt)
+				if !ok || br.Tok != token.CONTINUE {
+					continue
+				}
+				switch c17ExprString(is.Cond) {
+				case "active":
+					activeSkips = true
+				case "!lm.Before(time.Now().Add(-time.Duration(s.cfg.MaxAge)))":
+					youngSkips = true
+				}
+			}
+			passOK = has(l, "p.CloseIfEmpty") && !has(l, "p.Close") && closedSkips && activeSkips && youngSkips &&
+				has(calls(emptyIf.Else), "p.Close")
+		}
+		writeBool(b, "c04_purge_pass_shape", passOK)
+
+		// RemoveNode touches only s.processors[ownerID]
+		rn := p.funcDecl("RemoveNode", "Service")
+		rnOK := false
+		ast.Inspect(rn, func(n ast.Node) bool {
+			if as, ok := n.(*ast.AssignStmt); ok && len(as.Rhs) == 1 && c17ExprString(as.Rhs[0]) == "s.processors[ownerID]" {
+				rnOK = true
+			}
+			return true
+		})
+		rnDel := false
+		ast.Inspect(rn, func(n ast.Node) bool {
+			if c, ok := n.(*ast.CallExpr); ok && c17ExprString(c) == "delete(s.processors,ownerID)" {
+				rnDel = true
+			}
+			return true
+		})
+		rl := calls(rn)
+		writeBool(b, "c04_remove_node_scoped", rnOK && rnDel && has(rl, "p.Close") && has(rl, "p.Purge") && has(rl, "s.pathforNode"))
+
+		// coordinator.ShardWriter.WriteShardBinary answers nil, without sending, for a shard whose
+		// group is gone (documented reason "a shard that no longer exists")
+		cw := loadPkg(filepath.Join(*repo, "coordinator"))
+		wb := cw.funcDecl("WriteShardBinary", "ShardWriter")
+		gone := false
+		ast.Inspect(wb, func(n ast.Node) bool {
+			if is, ok := n.(*ast.IfStmt); ok && c17ExprString(is.Cond) == "sgi==nil" && len(is.Body.List) == 1 {
+				if r, ok := is.Body.List[0].(*ast.ReturnStmt); ok && len(r.Results) == 1 && c17ExprString(r.Results[0]) == "nil" {
+					gone = true
+				}
+			}
+			return true
+		})
+		writeBool(b, "c04_writer_drops_unknown_shard", gone)
+		// IsRetryable: the two permanent-rejection substrings
+		ir := p.funcDecl("IsRetryable", "")
+		var subs []string
+		ast.Inspect(ir, func(n ast.Node) bool {
+			if c, ok := n.(*ast.CallExpr); ok && c17ExprString(c.Fun) == "strings.Contains" && len(c.Args) == 2 {
+				subs = append(subs, c17ExprString(c.Args[1]))
+			}
+			return true
+		})
+		writeBool(b, "c04_permanent_errors_are_conflict_and_partial", strings.Join(subs, "|") == "\"field type conflict\"|\"partial write\"")
+	})
+}
